@@ -424,11 +424,20 @@ def build_cases(model, pairs: dict, tier: str) -> tuple[list, list]:
     for msid, alias, fac, post in module_cases():
         if (msid, alias) in pairs:
             add(msid, alias, fac, post=post)
+    # ---- the same real instances turned into instances of a NAMESAKE subclass (class Database(Database), class Beta(Beta))
+    # that redefines the new name: quick = the two classes users subclass most, thorough = all
+    by_parent = {psid: (tsid, model.namesake_classes[tsid]) for tsid, psid in model.namesake_parent.items()}
+    for c in list(cases):
+        if c['space'] in by_parent and (tier != 'quick' or c['space'].rsplit('.', 1)[-1] in ('Database', 'Beta')):
+            tsid, t = by_parent[c['space']]
+            if (tsid, c['alias']) in pairs and pairs[(tsid, c['alias'])]['newname'] in vars(t):
+                cases.append(dict(c, space=tsid, rec=pairs[(tsid, c['alias'])], factory=_reclassed(c['factory'], t),
+                                  label=(c['label'] + ' as namesake subclass').strip()))
     # ---- the same real instances turned into instances of a user subclass that redefines the new name
     if tier != 'quick':
         by_base = {model.space_id(u.__bases__[0]): (usid, u) for usid, u in model.user_classes.items()}
         for c in list(cases):
-            if c['space'] in by_base:
+            if c['space'] in by_base and 'namesake' not in c['label']:
                 usid, u = by_base[c['space']]
                 if (usid, c['alias']) in pairs and pairs[(usid, c['alias'])]['newname'] in vars(u):
                     cases.append(dict(c, space=usid, rec=pairs[(usid, c['alias'])], factory=_reclassed(c['factory'], u),
@@ -725,3 +734,71 @@ def run_kw_case(item):
 def _kw_factory(case):
     recv, args, kwargs = case['factory']()
     return recv, args, kwargs
+
+
+# ------------------------------------------------------------------------------------------------
+# several keywords in a given ORDER (cases emitted by TLC: KwOrdered), real arguments
+# ------------------------------------------------------------------------------------------------
+
+REAL_KW_VALUES = {
+    'biogeme.biogeme.BIOGEME.__init__': {
+        'suggestScales': True, 'numberOfThreads': 2, 'numberOfDraws': 7, 'missingData': -1, 'userNotes': 'my notes',
+        'generateHtml': False, 'saveIterations': False, 'seed': 12, 'seed_param': 12, 'number_of_draws': 7, 'number_of_threads': 2,
+        'zz_other': 'a keyword BIOGEME does not know',
+    },
+}
+
+
+def ignored_position(rec) -> str:
+    """Where the (first) ignored keyword stands among the others: first / middle / last / none."""
+    pos = [i for i, k in enumerate(rec['kinds']) if k == 'ignored']
+    if not pos:
+        return 'none'
+    return 'first' if pos[0] == 0 else 'last' if pos[0] == len(rec['kinds']) - 1 else 'middle'
+
+
+def build_kw_order_cases(model, kwseq: list, tier: str) -> list:
+    """Ordered keyword cases of BIOGEME.__init__ with an ignored keyword among at least one old-style and one
+    new-style keyword, each keyword with a real value.  quick: two per position of the ignored keyword."""
+    import biogeme.biogeme as bio
+
+    fid = 'biogeme.biogeme.BIOGEME.__init__'
+    vals = REAL_KW_VALUES[fid]
+    recs = [e for e in kwseq if e['fid'] == fid and len(e['forwarded_options']) == 1 and all(n in vals for n, _ in e['given'])
+            and {'ignored', 'old-style', 'new-style'} <= set(e['kinds'])]
+    recs.sort(key=lambda e: (len(e['given']), str(e['given'])))
+    out = []
+    per = {}
+    for e in recs:
+        w = ignored_position(e)
+        if tier == 'quick' and per.get(w, 0) >= 2:
+            continue
+        per[w] = per.get(w, 0) + 1
+        given = [(n, vals[n]) for n, _ in e['given']]
+        by_num = {v: n for n, v in e['given']}
+        forwarded = [(n, vals[by_num[v]]) for n, v in e['forwarded_options'][0]]
+        out.append(dict(fid=fid, rec=e, where=w, given=given, forwarded=forwarded, space='biogeme.biogeme.BIOGEME',
+                        factory=lambda: (bio.BIOGEME, (database(), formulas()), {}), fname='__call__',
+                        post=lambda b: [b, {n: b.biogeme_parameters.get_value(n) for n in sorted(b.biogeme_parameters.parameter_names)}]))
+    return out
+
+
+def run_kw_order_case(item):
+    model, case, seed = item
+    shim = dict(factory=case['factory'], post=case['post'])
+    old = _one_side(model, shim, case['fname'], case['space'], seed, dict(case['given']))
+    new = _one_side(model, shim, case['fname'], case['space'], seed, dict(case['forwarded']))
+    diffs = []
+    for k in ('result', 'receiver', 'files'):
+        if old[k] != new[k]:
+            diffs.append(dict(what=k, old=str(old[k])[:400], new=str(new[k])[:400]))
+    rest = list(old['warnings'])
+    for name in case['rec']['obsolete_given']:
+        dep = [w for w in rest if w[0] == 'DeprecationWarning' and f"'{name}'" in w[1]]
+        if len(dep) != 1:
+            diffs.append(dict(what=f'deprecation warnings naming {name}', old=old['warnings'][:6]))
+        for w in dep:
+            rest.remove(w)
+    if rest != new['warnings']:
+        diffs.append(dict(what='warnings beyond the deprecation warnings', old=rest[:5], new=new['warnings'][:5]))
+    return dict(fid=case['fid'], given=[n for n, _ in case['given']], diffs=diffs, raised=(old['raised'], new['raised']), result=old['result'][:200])
